@@ -196,43 +196,57 @@ func (db *DB) loadMergeFiles() (uint32, error) {
 		return 0, nil
 	}
 
-	defer func() {
-		// 加载完成后删除 merge 目录
-		_ = os.RemoveAll(mergePath)
-	}()
-
-	// 处理经过重写的数据文件, 处理中途失败需返回错误
+	// 重写文件的 id 从 0 起连续, 且下面按 id 升序逐个移动,
+	// 因此上次加载中途崩溃后留在 merge 目录中的重写文件是一段后缀, 其最大 id 不变;
+	// 一个都不剩说明原数据文件的清理和全部移动已在上次加载中完成
+	var rewrittenNum uint32
 	for fileID := uint32(0); fileID < mergeID; fileID++ {
-		// 删除原数据文件
-		destName := datafile.GetFileName(db.options.DirPath, fileID, datafile.DataFileSuffix)
-		var exist bool
-		if _, err := os.Stat(destName); err == nil {
-			if err = os.Remove(destName); err != nil {
+		srcFile := datafile.GetFileName(mergePath, fileID, datafile.DataFileSuffix)
+		if _, err := os.Stat(srcFile); err == nil {
+			rewrittenNum = fileID + 1
+		} else if !os.IsNotExist(err) {
+			return 0, err
+		}
+	}
+
+	if rewrittenNum > 0 {
+		// 没有对应重写文件的原数据文件中有效数据已全部重写, 直接删除
+		for fileID := rewrittenNum; fileID < mergeID; fileID++ {
+			destName := datafile.GetFileName(db.options.DirPath, fileID, datafile.DataFileSuffix)
+			if err := os.Remove(destName); err != nil && !os.IsNotExist(err) {
 				return 0, err
 			}
-			exist = true
 		}
-		// 将重写的数据文件移动到数据目录中
-		srcFile := datafile.GetFileName(mergePath, fileID, datafile.DataFileSuffix)
-		if _, err := os.Stat(srcFile); err != nil {
-			// 如果原数据文件不存在, 则允许重写文件不存在
-			if !exist && os.IsNotExist(err) {
-				continue
+		// 以重命名的方式原子地替换原数据文件, 不先删除, 重复执行无副作用
+		for fileID := uint32(0); fileID < rewrittenNum; fileID++ {
+			srcFile := datafile.GetFileName(mergePath, fileID, datafile.DataFileSuffix)
+			if _, err := os.Stat(srcFile); err != nil {
+				if os.IsNotExist(err) {
+					// 已在上次加载中移动
+					continue
+				}
+				return 0, err
 			}
-			return 0, err
-		}
-		if err := os.Rename(srcFile, destName); err != nil {
-			return 0, err
+			destName := datafile.GetFileName(db.options.DirPath, fileID, datafile.DataFileSuffix)
+			if err := os.Rename(srcFile, destName); err != nil {
+				return 0, err
+			}
 		}
 	}
 
-	// 移动对应的 hint 文件, 移动失败应当返回错误
+	// 移动对应的 hint 文件, 不存在说明已在上次加载中移动
 	srcHintFile := datafile.GetFileName(mergePath, 0, datafile.HintFileSuffix)
 	destHintFile := datafile.GetFileName(db.options.DirPath, 0, datafile.HintFileSuffix)
-	if _, err := os.Stat(srcHintFile); err != nil {
+	if _, err := os.Stat(srcHintFile); err == nil {
+		if err := os.Rename(srcHintFile, destHintFile); err != nil {
+			return 0, err
+		}
+	} else if !os.IsNotExist(err) {
 		return 0, err
 	}
-	if err := os.Rename(srcHintFile, destHintFile); err != nil {
+
+	// 全部完成后才删除 merge 目录(含完成标识); 中途失败时保留, 下次启动时重试
+	if err := os.RemoveAll(mergePath); err != nil {
 		return 0, err
 	}
 
